@@ -1,6 +1,7 @@
 """C19 - sensors, battery, CPU frequency/count, boot time mirror the kernel's tables."""
 
 import ast
+import os
 
 from ..core.absint import Interp, alternatives, pretty
 from ..core.analysis import Analysis, facts
@@ -184,6 +185,13 @@ def run(ctx):
                 ctx.fail("C19.R2", key, f.file, c.lineno, f.qual,
                          f"`{norm_stmt(c)}` is read without a per-entry OSError handler: "
                          f"one missing or unreadable sensor file makes the whole call fail")
+    # ------------------------------------------------------------------- R5
+    ctx.rule("C19.R5", "optional files: a threshold file whose content is not a number "
+             "yields None for that threshold (the sensor is kept); an offline CPU is "
+             "recognised through /sys/devices/system/cpu/cpu<N>/online whatever cpufreq "
+             "layout was globbed", floor=3)
+    _r5(ctx, repo, A, pm)
+
     # ------------------------------------------------------------------- R4
     ctx.rule("C19.R4", "/proc/stat keys: cpu_stats() takes ctx_switches, interrupts and "
              "soft_interrupts from column 1 of the `ctxt`, `intr` and `softirq` lines; "
@@ -531,3 +539,110 @@ def _r4(ctx, repo, A, pm):
         ctx.fail("C19.R4", "boot_time", bt.file, bt.node.lineno, bt.qual,
                  f"boot_time() comes from {got or pretty(tb)[:80]}; proc(5): column 1 of the "
                  f"`btime` line of /proc/stat")
+
+
+def _r5(ctx, repo, A, pm):
+    import re as _re
+    f = repo.func(pm, "sensors_temperatures")
+    # threshold variables: read from a path ending in _max / _crit with a fallback
+    thr = {}
+    for st in ast.walk(f.node):
+        if isinstance(st, ast.Assign) and len(st.targets) == 1 and isinstance(st.targets[0], ast.Name) \
+                and isinstance(st.value, ast.Call) and dotted(st.value.func) in ("bcat", "cat") \
+                and st.value.args:
+            t = norm_stmt(deref(f.node, st.value.args[0]))
+            for suf in ("_max", "_crit"):
+                if f"'{suf}'" in t:
+                    thr[st.targets[0].id] = suf
+    n = 0
+    for st in ast.walk(f.node):
+        if not (isinstance(st, ast.Assign) and len(st.targets) == 1
+                and dotted(st.targets[0]) in thr):
+            continue
+        if not any(isinstance(c, ast.Call) and dotted(c.func) == "float"
+                   for c in ast.walk(st.value)):
+            continue
+        v = dotted(st.targets[0])
+        n += 1
+        key = f"threshold-not-a-number:{v}({thr[v]})"
+        trys = enclosing_trys(f.node, st)
+        verdict = "no ValueError handler: the whole call fails"
+        for t_ in reversed(trys):
+            hs = [h for h in t_.handlers if handler_catches(h, ["ValueError"])]
+            if not hs:
+                continue
+            h = hs[0]
+            leaves = any(isinstance(x, (ast.Continue, ast.Break, ast.Return, ast.Raise))
+                         for b in h.body for x in ast.walk(b))
+            sets_none = any(isinstance(x, ast.Assign) and dotted(x.targets[0]) == v
+                            and isinstance(x.value, ast.Constant) and x.value.value is None
+                            for b in h.body for x in ast.walk(b))
+            if leaves:
+                verdict = ("the ValueError handler skips the whole sensor: its valid current "
+                           "reading (and the other threshold) are lost")
+            elif sets_none:
+                verdict = None
+            else:
+                verdict = f"the ValueError handler does not set {v} to None"
+            break
+        if verdict is None:
+            ctx.ok("C19.R5", key, sample=f"float({v}) fails -> {v} = None, sensor kept")
+        else:
+            ctx.fail("C19.R5", key, f.file, st.lineno, f.qual,
+                     f"a non-numeric {thr[v]} file: {verdict}")
+    ctx.require(n >= 2, f"only {n} threshold conversions found in sensors_temperatures()")
+    # offline CPU probe
+    for cf in repo.funcs(pm, "cpu_freq"):
+        probes = [c for c in calls_in(cf.node) if dotted(c.func) in ("cat", "bcat") and c.args
+                  and "online" in norm_stmt(deref(cf.node, c.args[0]))]
+        if not probes:
+            continue
+        globs = [c.args[0].value for c in calls_in(cf.node) if dotted(c.func) == "glob.glob"
+                 and c.args and isinstance(c.args[0], ast.Constant)]
+        loopvars = {}
+        for lp in ast.walk(cf.node):
+            if isinstance(lp, ast.For):
+                tg = lp.target.elts[-1] if isinstance(lp.target, ast.Tuple) else lp.target
+                if isinstance(tg, ast.Name):
+                    loopvars[tg.id] = globs
+
+        def paths(e):
+            e = deref(cf.node, e)
+            if isinstance(e, ast.Constant) and isinstance(e.value, str):
+                return [e.value]
+            if isinstance(e, ast.JoinedStr):
+                outs = [""]
+                for v_ in e.values:
+                    if isinstance(v_, ast.Constant):
+                        outs = [o + v_.value for o in outs]
+                    else:
+                        outs = [o + "<N>" for o in outs]
+                return outs
+            if isinstance(e, ast.Name) and e.id in loopvars:
+                return list(loopvars[e.id])
+            if isinstance(e, ast.Call):
+                fn_ = (dotted(deref(cf.node, e.func)) or "").split(".")[-1]
+                if fn_ == "dirname" and e.args:
+                    return [os.path.dirname(p_) for p_ in paths(e.args[0])]
+                if fn_ in ("join", "pjoin") and e.args:
+                    acc = paths(e.args[0])
+                    for a_ in e.args[1:]:
+                        acc = [os.path.join(x, y) for x in acc for y in paths(a_)]
+                    return acc
+            return ["?"]
+        for c in probes:
+            got = paths(c.args[0])
+            key = "offline-cpu-probe"
+            pat = _re.compile(r"^/sys/devices/system/cpu/cpu(<N>|\[0-9\]\*)/online$")
+            bad = [g for g in got if not pat.match(g)]
+            if "?" in got:
+                ctx.advisory(f"C19.R5 {key}: probe path `{norm_stmt(c.args[0])}` is outside the "
+                             f"evaluated subset; not decided")
+                ctx.ok("C19.R5", key, sample="not decided", nontrivial=False)
+            elif bad:
+                ctx.fail("C19.R5", key, cf.file, c.lineno, cf.qual,
+                         f"the offline-CPU probe reads {bad} for some cpufreq layout: that is "
+                         f"not /sys/devices/system/cpu/cpu<N>/online, so an offline CPU is not "
+                         f"recognised (NotImplementedError instead of zeros)")
+            else:
+                ctx.ok("C19.R5", key, sample=got)
